@@ -292,3 +292,92 @@ Proof.
     apply Rinv_neq_0_compat. lra.
   - intros E. apply Hn. nra.
 Qed.
+
+(* ---------------- TRC and REC as solids ---------------- *)
+Lemma trc_inside_facets (v h : pt) (r0 r1 : R) (p : pt) :
+  h <> (0, 0, 0) ->
+  (trc_inside v h r0 r1 p <-> inside_of (trc_facets v h r0 r1) p).
+Proof.
+  intros Hh. pose proof (norm2_pos h Hh) as Hn.
+  unfold trc_inside, inside_of, trc_facets, trc_cone, plane_end, plane_begin. split.
+  - intros (t & w & Ht & Hw & Hr & ->).
+    assert (E : vsub (vadd v (vadd (vmul t h) w)) v = vadd (vmul t h) w).
+    { destruct v as [[v1 v2] v3], h as [[h1 h2] h3], w as [[w1 w2] w3].
+      unfold vsub, vadd, vmul. apply pair3; ring. }
+    assert (D : dot (vadd (vmul t h) w) h = t * norm2 h).
+    { rewrite dot_vadd_l, dot_vmul_l, Hw. unfold norm2. ring. }
+    apply Forall_cons; [|apply Forall_cons; [|apply Forall_cons; [|apply Forall_nil]]];
+      cbv beta zeta; rewrite E.
+    + unfold perp2. rewrite D.
+      assert (N : norm2 (vadd (vmul t h) w) = t * t * norm2 h + norm2 w).
+      { unfold norm2 at 1. rewrite dot_vadd_l, !dot_vadd_r, !dot_vmul_l, !dot_vmul_r.
+        rewrite (dot_comm h w), Hw. unfold norm2. ring. }
+      rewrite N. replace (t * norm2 h / norm2 h) with t by (field; lra).
+      unfold sqr in *. replace (t * norm2 h * (t * norm2 h) / norm2 h) with (t * t * norm2 h)
+        by (field; lra). lra.
+    + rewrite dot_vsub_l, D. fold (norm2 h). nra.
+    + rewrite D. nra.
+  - intros H. repeat match goal with H : Forall _ (_ :: _) |- _ => inversion_clear H end.
+    cbv zeta in *. set (q := vsub p v) in *. rewrite (dot_vsub_l q h h) in *. fold (norm2 h) in *.
+    exists (dot q h / norm2 h), (vsub q (vmul (dot q h / norm2 h) h)).
+    split; [|split; [|split]].
+    + split; [apply Rdiv_lt_0_compat; lra|].
+      apply (Rmult_lt_reg_r (norm2 h)); [lra|]. unfold Rdiv. rewrite Rmult_assoc, Rinv_l; lra.
+    + rewrite dot_vsub_l, dot_vmul_l. fold (norm2 h). field. lra.
+    + unfold perp2, sqr in *. unfold norm2 at 1.
+      rewrite dot_vsub_l, !dot_vsub_r, !dot_vmul_l, !dot_vmul_r.
+      fold (norm2 h) (norm2 q). rewrite (dot_comm h q).
+      match goal with |- ?L < _ =>
+        replace L with (norm2 q - dot q h * dot q h / norm2 h) by (field; lra) end. lra.
+    + subst q. destruct p as [[p1 p2] p3], v as [[v1 v2] v3], h as [[h1 h2] h3].
+      unfold vadd, vsub, vmul. apply pair3; ring.
+Qed.
+
+Lemma ortho_det_nonzero (a b c : pt) :
+  dot a b = 0 -> dot a c = 0 -> dot b c = 0 ->
+  a <> (0, 0, 0) -> b <> (0, 0, 0) -> c <> (0, 0, 0) -> det a b c <> 0.
+Proof.
+  intros Hab Hac Hbc Ha Hb Hc.
+  pose proof (norm2_pos a Ha). pose proof (norm2_pos b Hb). pose proof (norm2_pos c Hc).
+  pose proof (gram b c a) as G. fold (det a b c) in G.
+  rewrite Hbc, (dot_comm c a), Hac, Hab in G. intros E. rewrite E in G.
+  assert (0 < norm2 a * norm2 b * norm2 c) by (repeat apply Rmult_lt_0_compat; assumption).
+  lra.
+Qed.
+
+Lemma rec_inside_facets (v h a1 a2 : pt) (p : pt) :
+  dot h a1 = 0 -> dot h a2 = 0 -> dot a1 a2 = 0 ->
+  h <> (0, 0, 0) -> a1 <> (0, 0, 0) -> a2 <> (0, 0, 0) ->
+  (rec_inside v h a1 a2 p <-> inside_of (rec_facets v h a1 a2) p).
+Proof.
+  intros H1 H2 H12 Hh Ha1 Ha2.
+  pose proof (norm2_pos h Hh) as Nh. pose proof (norm2_pos a1 Ha1) as N1.
+  pose proof (norm2_pos a2 Ha2) as N2.
+  pose proof (ortho_det_nonzero h a1 a2 H1 H2 H12 Hh Ha1 Ha2) as HD.
+  assert (H1' : dot a1 h = 0) by now rewrite dot_comm.
+  assert (H2' : dot a2 h = 0) by now rewrite dot_comm.
+  assert (H21 : dot a2 a1 = 0) by now rewrite dot_comm.
+  unfold rec_inside, inside_of, rec_facets, ellcyl, plane_end, plane_begin. split.
+  - intros (t & x & y & Ht & Hxy & ->).
+    assert (E : forall w, dot (vsub (vadd v (vadd (vmul t h) (vadd (vmul x a1) (vmul y a2)))) v) w
+                          = t * dot h w + x * dot a1 w + y * dot a2 w).
+    { intros w. rewrite dot_vsub_l, !dot_vadd_l, !dot_vmul_l. ring. }
+    apply Forall_cons; [|apply Forall_cons; [|apply Forall_cons; [|apply Forall_nil]]];
+      cbv beta zeta; rewrite ?(dot_vsub_l _ h h), !E; rewrite ?H1, ?H2, ?H12, ?H1', ?H2', ?H21;
+      fold (norm2 h) (norm2 a1) (norm2 a2).
+    + unfold sqr.
+      replace ((t * 0 + x * norm2 a1 + y * 0) / norm2 a1) with x by (field; lra).
+      replace ((t * 0 + x * 0 + y * norm2 a2) / norm2 a2) with y by (field; lra). lra.
+    + nra.
+    + nra.
+  - intros H. repeat match goal with H : Forall _ (_ :: _) |- _ => inversion_clear H end.
+    cbv zeta in *. set (q := vsub p v) in *. rewrite (dot_vsub_l q h h) in *. fold (norm2 h) in *.
+    exists (dot q h / norm2 h), (dot q a1 / norm2 a1), (dot q a2 / norm2 a2).
+    split; [|split].
+    + split; [apply Rdiv_lt_0_compat; lra|].
+      apply (Rmult_lt_reg_r (norm2 h)); [lra|]. unfold Rdiv. rewrite Rmult_assoc, Rinv_l; lra.
+    + unfold sqr in *. lra.
+    + pose proof (ortho_decompose h a1 a2 q H1 H2 H12 HD) as E.
+      rewrite <- E. subst q. destruct p as [[p1 p2] p3], v as [[v1 v2] v3].
+      unfold vadd, vsub. apply pair3; ring.
+Qed.
